@@ -15,6 +15,55 @@ RANK = {('user agent', False): 1, ('user agent', True): 1, ('user', False): 2, (
         ('author', True): 4, ('user', True): 5}   # the order of the property statement
 
 
+class BranchTally:
+    """Which branch of the mirrored code each generated input takes, classified by the model
+    (lean/WpModel/Model/C06Branches.lean); reported in the evidence with the branches never hit."""
+
+    def __init__(self):
+        self.lines = {}
+
+    def add(self, fn, line):
+        self.lines.setdefault(fn, []).append(line)
+
+    def report(self, run):
+        import collections
+        from vlib import lean
+        hist, never = {}, {}
+        for fn, lines in self.lines.items():
+            outs = lean.run_driver(run.prop.driver, lines)
+            counter = collections.Counter(outs)
+            if fn == 'specified':
+                parts = collections.Counter()
+                for tag, n in counter.items():
+                    for i, part in enumerate(tag.split('/')):
+                        parts[f'{i}:{part}'] += n
+                hist['specified-steps'] = dict(sorted(parts.items()))
+                universe = SPECIFIED_UNIVERSE
+                never['specified-steps'] = sorted(set(universe) - set(parts))
+            hist[fn] = dict(counter.most_common(60))
+            if fn in ('length', 'pagematch', 'fontsize'):
+                universe = lean.run_driver(run.prop.driver, [f'universe {fn}'])[0].split(' ')
+                never[fn] = sorted(set(universe) - set(counter))
+        run.extra['model_branches'] = hist
+        run.extra['model_branches_never_hit'] = never
+
+
+SPECIFIED_UNIVERSE = (
+    ['0:cascaded', '0:pending-solved', '0:pending-invalid-inherits', '0:pending-invalid-initial',
+     '0:absent-inherited', '0:absent-not-inherited', '0:anonymous-style',
+     '1:initial-custom', '1:initial-not-computed', '1:initial-stored', '1:inherit-stored', '1:value',
+     '1:raises-in-steps-1-3',
+     '2:text-decoration', '2:page-auto-root', '2:page-auto-parent', '2:specified-saved', '2:plain',
+     '3:return-stored', '3:no-computer', '3:raises-in-step-4', '3:raises-in-step-4-after-store'] +
+    [f'3:compute:{name}' for name in (
+        'length', 'font_size', 'font_weight', 'border_width', 'break_before_after', 'display', 'compute_float',
+        'line_height', 'pixel_length', 'word_spacing', 'gap', 'tab_size', 'bleed', 'vertical_align', 'length_tuple',
+        'length_or_percentage_tuple', 'border_radius', 'compute_position', 'background_size', 'border_image_slice',
+        'border_image_width', 'border_image_outset', 'border_image_repeat', 'transform', 'content', 'bookmark_label',
+        'string_set', 'anchor', 'lang')])
+TALLY = BranchTally()
+
+
 def w_origin(origin):
     return origin.replace(' ', '_')
 
@@ -329,7 +378,9 @@ def page_match_section(run):
                 sel = PageSelectorType(None, None, None, (a, b, None), None)
                 page = PageType('right', False, '', idx, ())
                 out = outcome(lambda: StyleFor._page_type_match(sel, page), render=show)
-                sec.add(sx.line('pagematch', w_selector(sel), w_page(page)), out,
+                TALLY.add('pagematch', sx.line('pmbranch', w_selector(sel), w_page(page)))
+                TALLY.add('pagematch', sx.line('pmbranch', w_selector(sel), w_page(page)))
+        sec.add(sx.line('pagematch', w_selector(sel), w_page(page)), out,
                         meta={'sel': list(sel), 'page': list(page), 'signature': f'nth:{a}:{b}:{idx}'},
                         tags=['nth-exhaustive'])
     run.extra['exhaustive'] = True
@@ -340,6 +391,7 @@ def page_match_section(run):
         sel, page = random_selector_page(run.rng, adversarial)
         out = outcome(lambda: StyleFor._page_type_match(sel, page), render=show)
         comps = sum(x is not None for x in sel)
+        TALLY.add('pagematch', sx.line('pmbranch', w_selector(sel), w_page(page)))
         sec.add(sx.line('pagematch', w_selector(sel), w_page(page)), out,
                 meta={'sel': list(sel), 'page': [page.side, page.blank, page.name, page.index, list(page.groups)],
                       'signature': f'pm:{list(sel)}'},
@@ -535,6 +587,7 @@ class FakeStyle(dict):
         self.is_root_element = parent_style is None
         self.pseudo_type = pseudo_type
         self.element = None
+        self.attrs = {}
         self.base_url = None
         from weasyprint.css.computed_values import _font_style_cache_key
         key = _font_style_cache_key(self)
@@ -565,7 +618,14 @@ def w_env(style, gets=(), model_overrides=None):
             style.cache['ratio_ch'][next(iter(style.cache['ratio_ch']))],
             [[k, enc(style[k])] for k in gets if k in style],
             [[k, enc(v)] for k, v in style.specified.items()],
-            style.is_root_element, bool(style.pseudo_type)]
+            style.is_root_element, bool(style.pseudo_type),
+            [[k, enc(v)] for k, v in style.attrs.items()]]
+
+
+def set_attrs(style, attrs):
+    import xml.etree.ElementTree as ET
+    style.element = ET.Element('p', dict(attrs))
+    style.attrs = dict(attrs)
 
 
 NUMBERS = [F(0), F(1), F(-1), F(3, 2), F(1, 4), F(16), F(12), F(10), F(7, 10), F(-5, 2), F(100), F(96), F(254, 100),
@@ -637,6 +697,7 @@ def computed_section(run):
         override = run.rng.choice([None, None, F(20), F(0), F(5, 2)])
         pixels_only = run.rng.random() < 0.5
         out = outcome(lambda: cv.length(style, 'width', value, font_size=override, pixels_only=pixels_only))
+        TALLY.add('length', sx.line('lengthbranch', enc(value), opt(override), pixels_only))
         sec.add(sx.line('length', env, enc(value), opt(override), pixels_only), out,
                 meta={'fn': 'length', 'value': repr(value), 'font_size': override, 'pixels_only': pixels_only,
                       'signature': f'length:{getattr(value, "unit", value)}'},
@@ -647,7 +708,8 @@ def computed_section(run):
         fn = cv.COMPUTER_FUNCTIONS[key]
         out = outcome(lambda: fn(style, key, value))
         sec.add(sx.line('compute', key, env, enc(value)), out,
-                meta={'fn': fn.__name__, 'key': key, 'value': repr(value), 'signature': f'{key}:{tag}'},
+                meta={'fn': fn.__name__, 'key': key, 'value': repr(value), 'signature': f'{key}:{tag}',
+                      'pseudo': bool(style.pseudo_type), 'font_size': str(style.get('font_size', ''))},
                 nontrivial=nontrivial, tags=[f'{fn.__name__}:{tag}'])
 
     # font_size
@@ -664,6 +726,8 @@ def computed_section(run):
         env = w_env(style, model_overrides={'parent_font_size': p_model} if parent else {})
         env[1] = r_model
         tag = value if isinstance(value, str) else (f'unit:{value.unit}' if isinstance(value, Dimension) else 'num')
+        TALLY.add('fontsize', sx.line('fsbranch', opt(p_model if parent else None) if parent is None or 'font_size' in parent
+                                       else 'none', enc(value)))
         call('font_size', style, value, env,
              value in ('larger', 'smaller') or (isinstance(value, Dimension) and value.unit in relative), tag)
 
@@ -741,6 +805,53 @@ def computed_section(run):
         call(key, style, value, env,
              (isinstance(value, Dimension) and value.unit in relative) or value in ('super', 'sub'),
              value if isinstance(value, str) else (f'unit:{value.unit}' if isinstance(value, Dimension) else 'num'))
+    # tuple-valued properties, content lists, anchor / lang
+    rng = run.rng
+
+    def dim(units=('px', 'em', '%', 'rem', 'pt', 'in', None, 'ex')):
+        return Dimension(pynum(rng.choice(NUMBERS[:16])), rng.choice(units))
+
+    def some(n_choices, make):
+        return tuple(make() for _ in range(rng.choice(n_choices)))
+
+    def content_item():
+        return rng.choice([('string', 'x'), ('string', 'yy'), ('content()', 'text'), ('counter()', ('c', 'decimal')),
+                           ('attr()', ('id', 'string', 'fb')), ('attr()', ('title', 'string', 'fb')),
+                           ('attr()', ('id', 'url', 'fb')), ('quote', 'open-quote'), ('leader()', ('string', 'dots')),
+                           ('url', ('external', 'http-x')), ('bogus', 'x'), ('string()', ('title', 'first'))])
+    generators = {
+        'border_spacing': lambda: some([2], lambda: dim(('px', 'em', 'pt', 'rem'))),
+        'size': lambda: some([2], lambda: dim(('px', 'in', 'cm', 'em'))),
+        'clip': lambda: rng.choice([(), some([4], lambda: rng.choice(['auto', dim(('px', 'em'))]))]),
+        'border_top_left_radius': lambda: some([2], dim), 'border_bottom_right_radius': lambda: some([2], dim),
+        'transform_origin': lambda: some([2, 3], dim),
+        'background_position': lambda: some([1, 2], lambda: (rng.choice(['left', 'right']), dim(), rng.choice(['top', 'bottom']), dim())),
+        'object_position': lambda: some([1], lambda: (rng.choice(['left', 'right']), dim(), rng.choice(['top', 'bottom']), dim())),
+        'background_size': lambda: some([1, 2, 3], lambda: rng.choice(['contain', 'cover', (rng.choice(['auto', dim()]), rng.choice(['auto', dim()]))])),
+        'border_image_slice': lambda: some([1, 2, 3, 4], lambda: dim((None, '%'))) + rng.choice([(), ('fill',)]),
+        'border_image_width': lambda: some([1, 2, 3, 4], lambda: rng.choice(['auto', dim((None, 'px', 'em', '%'))])),
+        'mask_border_width': lambda: some([1, 2, 3, 4], lambda: rng.choice(['auto', dim((None, 'px', '%'))])),
+        'border_image_outset': lambda: some([1, 2, 3, 4], lambda: rng.choice([dim((None, 'px', 'em')), rng.randint(0, 3)])),
+        'border_image_repeat': lambda: some([1, 2], lambda: rng.choice(['stretch', 'repeat', 'round', 'space'])),
+        'transform': lambda: some([0, 1, 2], lambda: rng.choice([('translate', (dim(('px', 'em', '%')), dim(('px', 'em', '%')))),
+                                                               ('rotate', F(3, 4)), ('scale', (2, F(1, 2)))])),
+        'content': lambda: rng.choice([('normal',), ('none',), some([1, 2, 3], content_item), ('normal', 'none'), ()]),
+        'bookmark_label': lambda: some([0, 1, 2, 3], content_item),
+        'string_set': lambda: some([1, 2], lambda: (rng.choice(['a', 'b']), some([0, 1, 2], content_item))),
+        'anchor': lambda: rng.choice(['none', ('attr()', 'id'), ('attr()', 'name'), ('attr()', 'title')]),
+        'lang': lambda: rng.choice(['none', ('attr()', 'lang'), ('attr()', 'id'), ('string', 'fr'), ('bogus', 'x')]),
+    }
+    wrong = ['auto', 'none', 3, None, Dimension(2, 'em'), ('a',), ((),), (3,), (None,), (('left', Dimension(1, 'px')),)]
+    for _ in range(run.n(2500, 40000)):
+        key = rng.choice(list(generators))
+        style, env = style_for_lengths()
+        style.pseudo_type = rng.choice([None, None, 'before'])
+        set_attrs(style, rng.choice([{}, {'id': 'q'}, {'id': 'q', 'lang': 'de', 'title': 'tt'}, {'name': ''}]))
+        env = env[:9] + [bool(style.pseudo_type), [[k, enc(v)] for k, v in style.attrs.items()]]
+        value = generators[key]() if rng.random() < 0.9 else rng.choice(wrong)
+        if ('border_image' in key or 'mask_border' in key) and value == wrong[-1]:
+            continue    # a pair that is not a Dimension unpacks as (number, unit): outside the model
+        call(key, style, value, env, True, 'wrong-shape' if value in wrong else f'len{len(value) if hasattr(value, "__len__") else 0}')
     sec.flush()
 
     reg = run.section('computer-registry', 'COMPUTER_FUNCTIONS: the function registered for every key vs the generated table')
@@ -800,6 +911,21 @@ def style_vocabulary():
         '__y': [('tok', 'q')], 'bleed_left': ['auto'] + lengths[:3], 'marks': ['none', ('crop',), ('cross',), ('crop', 'cross')],
         'white_space': ['normal', 'pre', 'nowrap'], 'opacity': [1, F(1, 2)], 'min_height': ['auto'] + lengths[:4],
         'nonexistent_key': ['foo'],
+        'border_spacing': [(D(1, 'em'), D(2, 'px')), (D(0, 'px'), D(1, 'rem'))],
+        'border_top_left_radius': [(D(1, 'em'), D(50, '%')), (D(3, 'px'), D(3, 'px'))],
+        'transform_origin': [(D(1, 'em'), D(2, 'em')), (D(50, '%'), D(0, 'px'), D(1, 'in'))],
+        'background_position': [(('left', D(1, 'em'), 'top', D(10, '%')),), (('right', D(0, '%'), 'bottom', D(2, 'rem')),) * 2],
+        'background_size': [(('auto', 'auto'),), ((D(1, 'em'), 'auto'), 'cover'), ('contain',)],
+        'clip': [(), (D(1, 'px'), 'auto', D(1, 'em'), D(2, 'px'))],
+        'border_image_slice': [(D(10, None), D(20, '%'), 'fill'), (D(1, None),)],
+        'border_image_width': [(D(1, None), D(2, 'em'), 'auto'), ('auto',)],
+        'border_image_outset': [(D(1, None), D(2, 'px')), (D(1, 'em'),)],
+        'border_image_repeat': [('round',), ('stretch', 'space')],
+        'transform': [(), (('translate', (D(1, 'em'), D(2, 'px'))), ('rotate', F(1, 2)))],
+        'content': [('normal',), ('none',), (('string', 'x'), ('attr()', ('id', 'string', 'fb'))), (('attr()', ('nope', 'string', 'fb')),)],
+        'bookmark_label': [(('content()', 'text'),), (('attr()', ('title', 'string', 'fb')), ('string', 'z'))],
+        'string_set': [(('a', (('content()', 'text'),)),), (('b', (('string', 'x'), ('attr()', ('id', 'string', 'fb')))),)],
+        'anchor': ['none', ('attr()', 'id'), ('attr()', 'name')], 'lang': ['none', ('attr()', 'lang'), ('string', 'fr')],
     }
 
 
@@ -820,8 +946,12 @@ def random_cascaded(rng, vocab):
     return cascaded
 
 
+ELEMENT_ATTRS = {'id': 'q', 'lang': 'de', 'title': 'tt'}
+
+
 def w_elem(cascaded, pseudo):
-    return [opt(pseudo)] + [[key, w_casc(value)] for key, (value, _) in cascaded.items()]
+    return [opt(pseudo), ['@'] + [[k, enc(v)] for k, v in ELEMENT_ATTRS.items()]] + [
+        [key, w_casc(value)] for key, (value, _) in cascaded.items()]
 
 
 def style_section(run):
@@ -837,7 +967,7 @@ def style_section(run):
         'read in random order on the memoising dict; non-trivial = the key is not cascaded, or is '
         'inherit/initial/pending, or has a computing function')
     from weasyprint.css.computed_values import COMPUTER_FUNCTIONS
-    element = ET.Element('p')
+    element = ET.Element('p', ELEMENT_ATTRS)
     for _ in range(run.n(700, 12000)):
         depth = run.rng.randint(1, 4)
         chain = []      # root first: (cascaded, pseudo)
@@ -864,6 +994,7 @@ def style_section(run):
         for key in order:
             out = f'{key}=' + outcome(lambda: style[key])
             value = cascaded.get(key, (None,))[0]
+            TALLY.add('specified', sx.line('specbranch', F(1, 2), F(1, 2), w_chain, key))
             sec.add(sx.line('style', F(1, 2), F(1, 2), w_chain, [key]), out,
                     meta={'key': key, 'chain': [[{k: c_casc(v[0]) for k, v in c.items()}, p] for c, p in chain],
                           'signature': f'style:{key}:{out[:30]}'},
@@ -874,12 +1005,115 @@ def style_section(run):
     sec.flush()
 
 
+def all_properties_section(run):
+    """absence / inherit / initial / failed var() for *every* key of INITIAL_VALUES, on the root, below it and on
+    an element without declarations."""
+    import xml.etree.ElementTree as ET
+    from weasyprint.css import computed_from_cascaded
+    from weasyprint.css.computed_values import COMPUTER_FUNCTIONS
+    from weasyprint.css.properties import INHERITED, INITIAL_VALUES
+    sec = SnapSection(
+        run, 'all-properties',
+        'every key of INITIAL_VALUES x {no declaration, inherit, initial, var() failing validation} x {root, child of '
+        'a root that declares the key, child of a root that does not, element without any declaration}: real '
+        'ComputedStyle / AnonymousStyle vs the model with the generated INHERITED / INITIAL_VALUES / '
+        'INITIAL_NOT_COMPUTED tables; non-trivial = all')
+    element = ET.Element('p', ELEMENT_ATTRS)
+    weight = (3, (0, 0, 0, 1))
+    for key in INITIAL_VALUES:
+        # a parent value that needs no computing: an opaque sentinel for keys without computing function
+        sentinel = 'sentinel-value' if key not in COMPUTER_FUNCTIONS else 'initial'
+        for parent_casc in (None, {}, {key: (sentinel, weight)}):
+            for own in ('absent', 'inherit', 'initial', 'pending-invalid', 'anonymous'):
+                if parent_casc is None and own == 'anonymous':
+                    continue
+                cascaded = {} if own == 'anonymous' else {'nonexistent_key': ('x', weight)}
+                if own in ('inherit', 'initial'):
+                    cascaded[key] = (own, weight)
+                elif own == 'pending-invalid':
+                    cascaded[key] = (make_pending(INVALID), weight)
+                chain = [] if parent_casc is None else [(dict(parent_casc, nonexistent_key=('x', weight)), None)]
+                chain.append((cascaded, None))
+                styles = []
+                for casc, pseudo in chain:
+                    parent = styles[-1] if styles else None
+                    styles.append(computed_from_cascaded(element, casc, parent, pseudo,
+                                                         {'font_size': 16} if not styles else styles[0], None))
+                style = styles[-1]
+                out = f'{key}=' + outcome(lambda: style[key])
+                TALLY.add('specified', sx.line('specbranch', F(1, 2), F(1, 2), [w_elem(c, p) for c, p in reversed(chain)], key))
+                sec.add(sx.line('style', F(1, 2), F(1, 2), [w_elem(c, p) for c, p in reversed(chain)], [key]), out,
+                        meta={'key': key, 'own': own, 'parent': None if parent_casc is None else list(parent_casc),
+                              'signature': f'all:{key}:{own}'},
+                        tags=[own, 'inherited' if key in INHERITED else 'not-inherited',
+                              'root' if parent_casc is None else 'child'])
+    sec.flush()
+
+
+def memo_section(run):
+    """Sequences of reads (with repeats) on one memoising ComputedStyle, including after exceptions."""
+    import xml.etree.ElementTree as ET
+    from weasyprint.css import computed_from_cascaded
+    vocab = style_vocabulary()
+    keys = [k for k in vocab if k != 'nonexistent_key']
+    sec = SnapSection(
+        run, 'style-memo',
+        'real ComputedStyle (root, or child of a root) read for a sequence of 3..14 keys with repeats: returned '
+        'value or exception of every read, in order, vs the dict model (stores, early stores left behind by an '
+        'exception, self[position] / self[float] pre-reads); roots that fail on page / text-decoration-* / position '
+        '(var() solved to inherit) make the element reads fail; first case = Witness.C06.stale_after_exception on '
+        'the real code; non-trivial = a key is read twice or a read raises')
+    element = ET.Element('p', ELEMENT_ATTRS)
+    failing = ['page', 'text_decoration_line', 'text_decoration_style', 'position', 'font_size', 'float']
+    for case in range(run.n(500, 8000)):
+        if case == 0:
+            chain = [({'page': (make_pending('inherit'), (3, (0, 0, 0, 1)))}, None),
+                     ({'page': (make_pending(INVALID), (3, (0, 0, 0, 1)))}, None)]
+            order = ['page', 'page', 'page']
+        else:
+            root = random_cascaded(run.rng, vocab)
+            if run.rng.random() < 0.5:
+                for k in run.rng.sample(failing, run.rng.randint(1, 3)):
+                    root[k] = (make_pending('inherit'), (3, (0, 0, 0, 1)))
+            chain = [(root, None)]
+            if run.rng.random() < 0.8:
+                cascaded = random_cascaded(run.rng, vocab)
+                if not cascaded:
+                    cascaded = {'width': ('auto', (3, (0, 0, 0, 1)))}
+                if run.rng.random() < 0.5:
+                    for k in run.rng.sample(['page', 'text_decoration_line', 'text_decoration_style', 'orphans'], 2):
+                        cascaded[k] = (run.rng.choice(['inherit', 'initial', make_pending(INVALID)]), (3, (0, 0, 0, 1)))
+                chain.append((cascaded, run.rng.choice([None, None, 'before'])))
+            pool = list(chain[-1][0]) + failing + ['display', 'float', 'position', 'width', 'font_size']
+            pool = [k for k in pool if k != 'nonexistent_key']
+            order = [run.rng.choice(pool) if run.rng.random() < 0.8 else run.rng.choice(keys)
+                     for _ in range(run.rng.randint(3, 14))]
+        styles = []
+        for cascaded, pseudo in chain:
+            parent = styles[-1] if styles else None
+            root_style = {'font_size': 16} if not styles else styles[0]
+            styles.append(computed_from_cascaded(element, cascaded, parent, pseudo, root_style, None))
+        style = styles[-1]
+        outs = [f'{key}=' + outcome(lambda: style[key]) for key in order]
+        w_chain = [w_elem(c, p) for c, p in reversed(chain)]
+        raised = any('=err:' in o for o in outs)
+        sec.add(sx.line('readseq', F(1, 2), F(1, 2), w_chain, order), ' '.join(outs),
+                meta={'keys': order, 'chain': [[{k: c_casc(v[0]) for k, v in c.items()}, p] for c, p in chain],
+                      'signature': f'memo:{order}'},
+                nontrivial=len(set(order)) < len(order) or raised,
+                tags=['raised' if raised else 'clean', f'depth{len(chain)}',
+                      'stale' if raised and any('=err:' not in o and outs[i].split('=')[0] in
+                                                 [x.split('=')[0] for x in outs[:i] if '=err:' in x]
+                                                 for i, o in enumerate(outs)) else 'no-stale'])
+    sec.flush()
+
+
 # ---------------------------------------------------------------------------------------------
 
 class C06(PropCheck):
     id = 'C06'
     extractors = (precedence.generate, units.generate)
-    modules = ('WpModel.Props.C06', 'WpModel.Witness.C06')
+    modules = ('WpModel.Props.C06', 'WpModel.Props.C06Memo', 'WpModel.Props.C06Values', 'WpModel.Witness.C06')
     trusted_base = (
         'modelled, not verified: StyleFor.__init__ / add_page_declarations weight fold, declaration_precedence, '
         '_page_type_match, preprocess_stylesheet control flow, evaluate/parse_media_query, ComputedStyle.__missing__, '
@@ -901,6 +1135,7 @@ class C06(PropCheck):
 
     def correspondence(self, run):
         docs.quiet()
+        TALLY.lines.clear()
         precedence_section(run)
         matcher_sort_section(run)
         media_section(run)
@@ -911,8 +1146,11 @@ class C06(PropCheck):
         preprocess_section(run)
         computed_section(run)
         style_section(run)
+        memo_section(run)
+        all_properties_section(run)
         cascade_docs.document_section(run)
         cascade_docs.conflict_section(run)
+        TALLY.report(run)
 
     # -- judge: does the implementation's output violate the property clause itself? ---------
     def judge(self, d):
@@ -926,6 +1164,7 @@ class C06(PropCheck):
             'var-inherit-on-root': cascade_docs.replay_var_inherit_on_root,
             'inherit-skips-computed-value': cascade_docs.replay_inherit_skips_computing,
             'media-attr-case-sensitive': cascade_docs.replay_media_attr_case,
+            'border-image-width-not-computed': cascade_docs.replay_border_image_width,
         }
 
     def replay(self, data):
